@@ -347,6 +347,30 @@ func C15(c *fw.Ctx) {
 			judge(c, pr, judgeOpts{SigPrefix: "shared-container"})
 		}
 	}
+	// objects show all their properties whatever the property names are made of: names from a pool (letters
+	// that normalisation rewrites, two-part vowel signs, marks out of canonical order, canonically equivalent
+	// pairs, ordinary names) in every ordered pair, built by a literal and by stores, shown whole, nested in an
+	// array and in another object, and after each name was read
+	{
+		id, num := model.Id, model.Num
+		names := append([]string{"a", "\u0995\u09cb", "\u0995\u09c7\u09be", "\u0995\u09c7\u09d7", "x\u0323\u0301", "x\u0301\u0323", "\u00e9", "e\u0301"}, normalisationSensitiveNames...)
+		for i, n1 := range names {
+			for j, n2 := range names {
+				if i == j || !c.Mine() {
+					continue
+				}
+				progs := [][]*model.N{
+					{model.Var("o", model.Obj([]string{n1, n2}, []*model.N{num(1), model.Str("two")})), model.Print(id("o")), model.Print(model.Arr(id("o"))), model.Print(model.Obj([]string{"w"}, []*model.N{id("o")})),
+						model.Print(model.Prop(id("o"), n1)), model.Print(model.Prop(id("o"), n2)), model.Print(id("o"))},
+					{model.Var("o", model.Obj(nil, nil)), model.ExprS(model.PAsg(id("o"), n1, num(1))), model.Print(id("o")), model.ExprS(model.PAsg(id("o"), n2, model.Arr(num(2)))), model.Print(id("o")),
+						model.Print(model.Bin("+", model.Str(">"), id("o")))},
+				}
+				for _, pr := range progs {
+					judge(c, pr, judgeOpts{SigPrefix: "property-names-of-every-make"})
+				}
+			}
+		}
+	}
 	scaleStrings(c)
 	// what is shown follows the value through its history: every sequence of up to four steps (five when
 	// not quick) over {print, list keys, list values, remove a / b, add c / a, overwrite b, print inside an
